@@ -29,9 +29,20 @@ def isExitCall : Stmt → Bool
   | .expr (.call (.id "childExitErrorWithIndex") _) => true
   | _ => false
 
-/-- `if <cond mentioning err1> { childExitError…; }` -/
-def isErrCheck : Stmt → Bool
-  | .ifs [] c thn [] => mentionsErr1 c && thn.any isExitCall
+def errNe0 : Expr → Bool
+  | .bin "!=" (.id "err1") (.lit 0) => true
+  | _ => false
+
+/-- the conditions under which a failing step is reported: `err1 != 0`, `r1 == 0 || err1 != 0`
+(short read/write on the sync socket), and — only for creating mount points — `err1 != 0 && err1 != syscall.EEXIST` -/
+def okCond (sys : String) : Expr → Bool
+  | .bin "||" (.bin "==" (.id "r1") (.lit 0)) e => errNe0 e
+  | .bin "&&" e (.bin "!=" (.id "err1") (.sel (.id "syscall") "EEXIST")) => errNe0 e && (sys == "SYS_MKDIRAT" || sys == "SYS_MKNODAT")
+  | e => errNe0 e
+
+/-- `if <err1 check> { childExitError…; }` -/
+def isErrCheck (sys : String) : Stmt → Bool
+  | .ifs [] c thn [] => okCond sys c && thn.any isExitCall
   | _ => false
 
 /-- steps whose failure is deliberately ignored -/
@@ -46,7 +57,7 @@ def scan : Nat → List Stmt → List String
     if isRawCall rhs && lhs.any (fun e => match e with | .id "err1" => true | _ => false) then
       match rest with
       | nxt :: rest' =>
-        if isErrCheck nxt then scan fuel rest'
+        if isErrCheck (sysOf rhs) nxt then scan fuel rest'
         else if sysOf rhs == "SYS_EXECVE" || sysOf rhs == "SYS_EXECVEAT" then scan fuel rest   -- the exec itself: checked by the final childExitError
         else ("unchecked " ++ sysOf rhs) :: scan fuel rest
       | [] => if sysOf rhs == "SYS_EXECVE" || sysOf rhs == "SYS_EXECVEAT" then [] else ["unchecked-at-end " ++ sysOf rhs]
@@ -57,7 +68,7 @@ def scan : Nat → List Stmt → List String
     -- `if _, _, err1 = RawSyscall(...); err1 != 0 { childExitError }`
     (match init with
      | [.assign lhs "=" [rhs]] =>
-       if isRawCall rhs && lhs.any (fun e => match e with | .id "err1" => true | _ => false) && !(mentionsErr1 c && thn.any isExitCall)
+       if isRawCall rhs && lhs.any (fun e => match e with | .id "err1" => true | _ => false) && !(okCond (sysOf rhs) c && thn.any isExitCall)
        then ["unchecked-init " ++ sysOf rhs] else []
      | _ => []) ++ scan fuel thn ++ scan fuel els ++ scan fuel rest
   | fuel + 1, (.for_ _ _ _ b) :: rest => scan fuel b ++ scan fuel rest
